@@ -267,7 +267,7 @@ def run(chk):
     for files, st in corpus:
         add_case(chk, cases, rng, files, st, 3, "corpus")
     exhaustive(chk, cases, rng, 2 if quick else 3, 3 if quick else 4)
-    n = 80 if quick else 1500
+    n = 80 if quick else 1000
     for i in range(n):
         # every fifth project is drawn in the loose mode (ambiguous references, deferred and inherited
         # bindings): model = implementation only; the others carry the generator's declared relation
